@@ -1,5 +1,6 @@
 import YarlProofs.C09
 import YarlProofs.Lemmas.WfLemmas
+import YarlProofs.C09Idn
 /-!
   C09Headline.lean — AUDIT LAYER for property C09.
 
@@ -15,11 +16,15 @@ import YarlProofs.Lemmas.WfLemmas
   `__eq__` compares and `__hash__` hashes.  `GoodAuthority e s`: for the split `pt`/`np` of the input, the user (if any)
   is a Python string, and the host text `h0` cut out of the input satisfies `GoodHost` (no '[' inside it, and for a
   non-ASCII host a sane IDNA answer — or it is a valid IPv6 literal with any zone); with an EMPTY host there must be a
-  user that is actually written, a password or a port.
+  user that is actually written, a password or a port.  (Since fix 2fdb38c a user made of lone surrogates only, which
+  requotes to "", is cached as None — not "" —, so in front of a non-empty host the guard asks nothing more of the
+  user: C09_headline_surrogate_user_agrees.)
+  IDN hosts: `IdnaAnswerSane` / `IdnaSaneAt` / `IdnaSane` (C16Idn.lean) are the stated ASSUMPTION about the `idna` package
+  under which the IDNA clause of the guard holds, see the section "IDN (non-ASCII) hosts".
 -/
 set_option linter.unusedVariables false
 namespace Yarl
-open EagerLemmas
+open EagerLemmas Idn HumanLemmas
 
 /-! ## Sentence 1 — "Every accessor returns the same value whether it was pre-computed while the URL was being built or
     derived later from the stored string parts." -/
@@ -29,8 +34,8 @@ open EagerLemmas
 theorem C09_headline_eager_eq_lazy (e : Env) (s : Str) (u : Url) (p : NetPre)
     (hu : encodeUrl e s = .ok u) (hpre : u.pre = some p)
     -- excludes the two KNOWN FINDINGS F-C09-bracket ("[[::1]", C09_headline_fails_for_malformed_brackets) and
-    -- F-C09-empty-authority ("//@", C09_headline_fails_for_empty_authority); C09_guard_excludes: ANY disagreeing input
-    -- is outside the guard
+    -- F-C09-empty-authority ("//@", C09_headline_fails_for_empty_authority, …_fails_for_surrogate_user_empty_host);
+    -- C09_guard_excludes: ANY disagreeing input is outside the guard
     (hg : GoodAuthority e s) :
     lazyNet e (pickleTwin u) = .ok p :=
   C09_eager_eq_lazy e s u p hu hpre hg
@@ -133,6 +138,104 @@ theorem C09_headline_restored_as_modifier_argument (e : Env) (u : Url) (hnet : n
     (origin e (pickleTwin u)).map pickleTwin = (origin e u).map pickleTwin :=
   C09_modifiers_of_net e u hnet
 
+/-! ### IDN (non-ASCII) hosts — the IDNA clause of the guard under ONE stated assumption (GAPS 1)
+
+  IDNA is an oracle of the model.  `IdnaAnswerSane a` (C16Idn.lean): `a` is non-empty and the library's own
+  `NOT_REG_NAME` screen finds nothing in it (lower-case RFC 3986 reg-name text).  `IdnaSaneAt o h`: every answer of the
+  oracle for the host `h` — the `idna` package's, or the stdlib-codec fallback's after the `.lower()` the library
+  applies — is sane.  `IdnaSane o`: … for every non-ASCII host.  These are ASSUMPTIONS about a third-party package
+  (trusted base), not proved. -/
+
+/-- the IDNA clause of `GoodHost` ("the answer is non-empty and introduces none of ':' '@' '[' ']'") follows from the
+    assumption for the host at hand; and under the universal assumption the whole guard on the host is purely
+    syntactic: "no '[' inside the host text, or a valid IPv6 literal (before an optional %zone)" — ASCII or not. -/
+theorem C09_headline_idn_guard (o : Oracles) (h0 : Str) :
+    (91 ∉ h0 →                       -- no '[' inside the host text (F-C09-bracket)
+      IdnaSaneAt o h0 →              -- ASSUMPTION about the idna package, for this host
+      GoodHost o h0) ∧
+    (IdnaSane o →                    -- ASSUMPTION about the idna package, for every non-ASCII host
+      (GoodHost o h0 ↔ (91 ∉ h0 ∨ ∃ h8, parseIP (partition 37 h0).1 = some (.v6 h8)))) :=
+  ⟨fun h91 hs => C09_idn_good_host o h0 h91 hs, fun hs => C09_idn_good_host_iff o hs h0⟩
+
+/-- sentence 1 for an input whose authority has the (IDN) host `h0`, with userinfo / port or not: the four cached
+    entries are what the lazy route derives.  (C09_idn_eager_eq_lazy, C09Idn.lean.) -/
+theorem C09_headline_eager_eq_lazy_idn_host (e : Env) (s : Str) (u : Url) (p : NetPre) (pt : Parts)
+    (np : NetlocParts) (h0 : Str)
+    (hu : encodeUrl e s = .ok u) (hpre : u.pre = some p)
+    (h1 : splitUrl e.o s = .ok pt) (h2 : splitNetloc e.o pt.netloc = .ok np) -- names the split of the input
+    (hhost : np.host = some h0)
+    (h91 : 91 ∉ h0)                              -- F-C09-bracket (C09_headline_fails_for_malformed_brackets)
+    (hs : IdnaSaneAt e.o h0)                     -- ASSUMPTION about the idna package; needed:
+                                                 -- C09_headline_idn_fails_for_insane_answer
+    (huser : ∀ x, np.user = some x → PyStr x) :  -- the user is a Python string (automatic when `s` is one)
+    lazyNet e (pickleTwin u) = .ok p :=
+  C09_idn_eager_eq_lazy e s u p pt np h0 hu hpre h1 h2 hhost h91 hs huser
+
+/-- sentence 2 for such an input: the restored URL has the same string form, netloc data, host, port, authority,
+    user, password, human_repr, and is equal with the same hash key.  Second part: under the universal assumption
+    `IdnaSane` EVERY Python-string input whose host text has no '[' inside (or is a valid IPv6 literal) is covered.
+    (C09_idn_pickle_lossless, C09_idn_pickle_lossless_any_host.) -/
+theorem C09_headline_restored_idn_host (e : Env) (s : Str) (u : Url) (pt : Parts) (np : NetlocParts) (h0 : Str)
+    (hpy : PyStr s) (hu : encodeUrl e s = .ok u)
+    (h1 : splitUrl e.o s = .ok pt) (h2 : splitNetloc e.o pt.netloc = .ok np) (hhost : np.host = some h0) :
+    ((91 ∉ h0 ∧ IdnaSaneAt e.o h0) ∨             -- F-C09-bracket; ASSUMPTION for this host — or
+      (IdnaSane e.o ∧ (91 ∉ h0 ∨ ∃ h8, parseIP (partition 37 h0).1 = some (.v6 h8)))) → -- the universal ASSUMPTION
+    net e (pickleTwin u) = net e u ∧ str e (pickleTwin u) = str e u ∧ host e (pickleTwin u) = host e u ∧
+    port e (pickleTwin u) = port e u ∧ authority e (pickleTwin u) = authority e u ∧
+    user e (pickleTwin u) = user e u ∧ password e (pickleTwin u) = password e u ∧
+    humanRepr e (pickleTwin u) = humanRepr e u ∧ (pickleTwin u).beq u = true ∧ eqKey (pickleTwin u) = eqKey u := by
+  rintro (⟨h91, hs⟩ | ⟨hs, hsyn⟩)
+  · exact C09_idn_pickle_lossless e s u pt np h0 hpy hu h1 h2 hhost h91 hs
+  · exact C09_idn_pickle_lossless_any_host e hs s u pt np h0 hpy hu h1 h2 hhost hsyn
+
+/-- END TO END, hypotheses on the input text only: `URL("scheme://h/path#fragment")` with a non-ASCII host `h`
+    (`IdnHostInput`: non-ASCII, none of `/ ? # TAB LF CR [ ] : @`, passes the NFKC check, the isdigit oracle knows
+    it, no IP literal before a '%').  Whatever the constructor returns is inside the guard and pickling it is
+    lossless.  (C09_idn_pickle_lossless_ctor.) -/
+theorem C09_headline_restored_idn_constructor (e : Env) (sc h rp rf : Str)
+    (vs : ValidScheme sc)                        -- non-empty scheme characters, written lower-case
+    (hi : IdnHostInput e.o h)                    -- the shape of the input host, see above
+    (hs : IdnaSaneAt e.o h)                      -- ASSUMPTION about the idna package
+    (h35 : 35 ∉ rp) (h63 : 63 ∉ rp)              -- `rp` = path text after the first '/': no '#', no '?'
+    (hc1 : Clean rp) (hc2 : Clean rf)            -- no TAB / LF / CR (split_url would strip them)
+    (u : Url) :
+    encodeUrl e (sc ++ 58 :: 47 :: 47 :: (h ++ (47 :: rp ++ fragTail rf))) = .ok u →
+    GoodAuthority e (sc ++ 58 :: 47 :: 47 :: (h ++ (47 :: rp ++ fragTail rf))) ∧
+    net e (pickleTwin u) = net e u ∧ str e (pickleTwin u) = str e u ∧ host e (pickleTwin u) = host e u ∧
+    port e (pickleTwin u) = port e u ∧ authority e (pickleTwin u) = authority e u ∧
+    user e (pickleTwin u) = user e u ∧ password e (pickleTwin u) = password e u ∧
+    humanRepr e (pickleTwin u) = humanRepr e u ∧ (pickleTwin u).beq u = true ∧ eqKey (pickleTwin u) = eqKey u :=
+  C09_idn_pickle_lossless_ctor e sc h rp rf vs hi hs h35 h63 hc1 hc2 u
+
+/-- the assumption is needed: with an `idna` package that answered "a:81", "u@x" or "" for the host of
+    `C16_idn_input` ("http://é/p") eager and lazy values DIFFER — raw_host "a:81" vs "a" (and port 80 vs 81),
+    raw_host "u@x" / no user vs "x" / user "u", raw_host "" vs None — and the input is outside the guard.
+    (Hypothetical packages: not observed, not a finding.  C16_idn_needs_no_colon / _no_at / _nonempty, C16Idn.lean.) -/
+theorem C09_headline_idn_fails_for_insane_answer :
+    (let e : Env := { b := .c, o := C16_idn_hostile "a:81".toStr }
+     ¬ IdnaSaneAt e.o [233] ∧
+     (encodeUrl e C16_idn_input).bind (rawHost e) = .ok (some "a:81".toStr) ∧
+     (encodeUrl e C16_idn_input).bind (fun u => rawHost e (pickleTwin u)) = .ok (some "a".toStr) ∧
+     (encodeUrl e C16_idn_input).bind (port e) = .ok (some 80) ∧
+     (encodeUrl e C16_idn_input).bind (fun u => port e (pickleTwin u)) = .ok (some 81) ∧
+     ¬ GoodAuthority e C16_idn_input) ∧
+    (let e : Env := { b := .c, o := C16_idn_hostile "u@x".toStr }
+     ¬ IdnaSaneAt e.o [233] ∧
+     (encodeUrl e C16_idn_input).bind (rawHost e) = .ok (some "u@x".toStr) ∧
+     (encodeUrl e C16_idn_input).bind (fun u => rawHost e (pickleTwin u)) = .ok (some "x".toStr) ∧
+     (encodeUrl e C16_idn_input).bind (rawUser e) = .ok none ∧
+     (encodeUrl e C16_idn_input).bind (fun u => rawUser e (pickleTwin u)) = .ok (some "u".toStr) ∧
+     ¬ GoodAuthority e C16_idn_input) ∧
+    (let e : Env := { b := .c, o := C16_idn_hostile [] }
+     ¬ IdnaSaneAt e.o [233] ∧
+     (encodeUrl e C16_idn_input).bind (rawHost e) = .ok (some []) ∧
+     (encodeUrl e C16_idn_input).bind (fun u => rawHost e (pickleTwin u)) = .ok none ∧
+     ¬ GoodAuthority e C16_idn_input) := by
+  obtain ⟨a1, _, a3, a4, a5, a6, _, _, a9⟩ := C16_idn_needs_no_colon
+  obtain ⟨b1, b2, b3, b4, b5, b6⟩ := C16_idn_needs_no_at
+  obtain ⟨c1, _, c3, c4, _, c6⟩ := C16_idn_needs_nonempty
+  exact ⟨⟨a1, a3, a5, a4, a6, a9⟩, ⟨b1, b2, b4, b3, b5, b6⟩, ⟨c1, c3, c4, c6⟩⟩
+
 /-! ### the two KNOWN FINDINGS: inputs outside the guard on which eager and lazy values differ -/
 
 /-- F-C09-empty-authority: "//@:?#", "//@", "//:" — stored netloc "", eager raw_host "", the restored URL reads None -/
@@ -163,13 +266,49 @@ theorem C09_headline_bracket_variants_agree :
   simp only [List.mem_cons, List.not_mem_nil, or_false] at hs
   rcases hs with rfl | rfl <;> rfl
 
+/-! ### a user made of lone surrogates only (fix 2fdb38c) -/
+
+/-- FIXED by commit 2fdb38c (was a C09 defect: eager raw_user "" vs None on the restored URL).  A user made of lone
+    surrogates only requotes to ""; `encode_url` now caches `REQUOTER(username) or None`, i.e. None — what the
+    restored URL reads from the stored netloc "host" — and the input is INSIDE the guard (which asks of a user in
+    front of a non-empty host only that it is a Python string).  Evaluated on the compiled backend with the NFKC
+    oracle = identity (`envC`); the pure-Python quoter drops the surrogate as well (C09_requote_lone_surrogate). -/
+theorem C09_headline_surrogate_user_agrees :
+    eagerLazy envC ("http://".toStr ++ [0xDC80] ++ "@host/".toStr) = .ok ("host".toStr,
+      some { rawHost := some "host".toStr, explicitPort := none, rawUser := none, rawPassword := none },
+      .ok { rawHost := some "host".toStr, explicitPort := none, rawUser := none, rawPassword := none }) ∧
+    GoodAuthority envC ("http://".toStr ++ [0xDC80] ++ "@host/".toStr) ∧
+    (∀ e : Env, q e Gen.REQUOTER [0xDC80] = []) :=
+  ⟨C09_surrogate_user_now_agrees, C09_surrogate_user_in_guard.1, C09_requote_lone_surrogate⟩
+
+/-- what is LEFT of that family — a further member of the class of F-C09-empty-authority ("authority normalises to
+    empty"; KNOWN_FINDINGS names only the spellings made of '@' and ':'): in front of an EMPTY host the dropped user
+    leaves the stored netloc empty, "foo://\udc80@/x": eager raw_host "", the restored URL reads None.  This is why
+    the empty-host clause of the guard asks for a user THAT IS WRITTEN (does not requote to ""), a password or a port. -/
+theorem C09_headline_fails_for_surrogate_user_empty_host :
+    eagerLazy envC ("foo://".toStr ++ [0xDC80] ++ "@/x".toStr) = .ok ([],
+      some { rawHost := some [], explicitPort := none, rawUser := none, rawPassword := none },
+      .ok { rawHost := none, explicitPort := none, rawUser := none, rawPassword := none }) ∧
+    ¬ GoodAuthority envC ("foo://".toStr ++ [0xDC80] ++ "@/x".toStr) :=
+  C09_surrogate_user_empty_host_counterexample
+
 /-
 GAPS:
- 1. GUARD COVERAGE.  `GoodHost` is established from the input for: ASCII host text without '[' (C09_good_host_ascii —
-    covers reg-names, IPv4, IPvFuture, bracketed junk with ':'), valid IPv6 with any zone (C09_good_host_ipv6_any_zone),
-    the empty host with a written user / password / port (C09_eager_eq_lazy_empty_host).  NOT established for: NON-ASCII
-    (IDN) hosts — the clause "the IDNA answer is non-empty and introduces none of ':' '@' '[' ']'" is a hypothesis about
-    the oracle that no theorem discharges (it needs a fact about `idna.encode`); so for IDN inputs C09 is conditional.
+ 1. PARTLY CLOSED by C09_idn_good_host, C09_idn_good_host_iff, C09_idn_eager_eq_lazy, C09_idn_pickle_lossless,
+    C09_idn_pickle_lossless_any_host, C09_idn_pickle_lossless_ctor (C09Idn.lean), see C09_headline_idn_guard,
+    C09_headline_eager_eq_lazy_idn_host, C09_headline_restored_idn_host, C09_headline_restored_idn_constructor.
+    GUARD COVERAGE as before for ASCII hosts: `GoodHost` is established from the input for ASCII host text without '['
+    (C09_good_host_ascii — covers reg-names, IPv4, IPvFuture, bracketed junk with ':'), valid IPv6 with any zone
+    (C09_good_host_ipv6_any_zone), the empty host with a written user / password / port
+    (C09_eager_eq_lazy_empty_host).  NEW for NON-ASCII (IDN) hosts: the clause "the IDNA answer is non-empty and
+    introduces none of ':' '@' '[' ']'" is now DERIVED from the single assumption `IdnaSaneAt e.o h0` ("every answer
+    of the `idna` package / of the lower-cased stdlib fallback for this host is non-empty lower-case reg-name text",
+    stated once in C16Idn.lean), for any authority shape (userinfo, port), and end to end from the input text for
+    `scheme://h/path#fragment`; under the universal form `IdnaSane` the guard on the host is purely syntactic.
+    WHAT REMAINS OPEN: `IdnaSaneAt` / `IdnaSane` is itself an ASSUMPTION about `idna.encode` (trusted base): no
+    theorem can discharge it, and the differential harness does not check it on its oracle table (C16Idn.lean: decidable
+    per run, not implemented).  So for IDN inputs C09 is still conditional — on that one assumption.  It is needed:
+    C09_headline_idn_fails_for_insane_answer (hypothetical answers "a:81", "u@x", "").
  2. F-C09-bracket in KNOWN_FINDINGS names three spellings ("[[::1]", "x[::1]", "[::1]x").  In the model only "[[::1]"
     disagrees (C09_headline_fails_for_malformed_brackets); the other two agree (C09_headline_bracket_variants_agree, new)
     and lie inside the guard (host text "::1").  Replayed against /repo (pickle round trip, 2026-09): the library agrees with the
@@ -186,6 +325,12 @@ GAPS:
  6. Eager values other than the four netloc entries do not exist in `encode_url`; if the library starts pre-computing
     more (e.g. `raw_path`), `NetPre` and this property must grow — the generated tables do not check this
     (no `Gen.` fact lists the keys `encode_url` writes into `_cache`).
+ 7. (new) F-C09-empty-authority has a member that KNOWN_FINDINGS does not spell out: a user made of lone surrogates only
+    in front of an EMPTY host ("foo://\udc80@/x", C09_headline_fails_for_surrogate_user_empty_host) — the same class
+    ("authority normalises to empty"), reached through the quoter dropping the user instead of through '@' / ':' only.
+    (The non-empty-host case was the defect fixed by 2fdb38c and agrees now: C09_headline_surrogate_user_agrees.)
+    Both are evaluated on the compiled backend only (`envC`); for the pure-Python backend there is the quoter fact
+    C09_requote_lone_surrogate but no evaluated `eagerLazy` theorem.
 -/
 
 end Yarl
